@@ -13,4 +13,10 @@ CLAIMED = {
         "note": "Trusted: Lean kernel, translator (tools/translate.py), correspondence harness; gzip/base64 codec abstract (round trip exercised, not proved); serde/Url glue by correspondence.",
         "technique": "Lean 4 proof over regenerated model fragments (decide +kernel byte table + induction) + correspondence",
     },
+    "C11": {
+        "text": "Lean 4 theorem validate_iff: the model of validate_jws_headers (constant tables PREDEFINED / PERMITTED_CRITS / DEFAULT_B64 / JwtHeader::has / is_disjoint regenerated from the Rust source on every run) accepts a header pair IFF an independently written specification holds (crit only protected, non-empty, every entry implemented + non-registered + present; b64 only protected and listed in crit; parameter-name sets disjoint) — both directions, so each forbidden shape is rejected and nothing else is. Plus: general encoder/decoder accept only recipient lists with one effective b64 (induction over recipients), no-header rejection, verification gate needs protected alg. Tied to the code by the full decision table through all three encoders and all three decoder entry points.",
+        "design_ref": "DESIGN.md §7.11",
+        "note": "Trusted: Lean kernel, translator, correspondence harness; serde (de)serialisation of headers; theorem domain WF excludes a custom map naming alg/b64.",
+        "technique": "Lean 4 proof (decision logic stated as iff against an independent spec, over regenerated tables) + correspondence",
+    },
 }
